@@ -70,6 +70,8 @@ class C11:
                 for k, u in enumerate(urls):
                     tiers[k % nt].append(u)
                 tiers = [t for t in tiers if t]
+                if len(tiers) > 1 and rng.random() < 0.3:
+                    tiers[-1].append(tiers[0][-1])      # one backup tracker is the fall-back of two tiers
                 ann = tiers[0][0]
                 if rng.random() < 0.4:
                     ann = rng.choice([u for t in tiers for u in t])     # primary tracker listed, but not first
